@@ -171,13 +171,22 @@ func (e *Explore) Run(ctx context.Context, con int) error {
 					}
 					tar := temp
 					hash := tar.target.Hash
+					// the target may have disappeared (or have been discovered anew, with a new
+					// entry) while this entry was waiting in the queue
+					e.targetsLock.Lock()
+					cur := e.targets[hash]
+					e.targetsLock.Unlock()
+					if cur != tar {
+						continue
+					}
+
 					err := e.exploreOnce(ctx, tar)
 					if err != nil {
 						go func() {
 							time.Sleep(e.retryInterval)
 							e.targetsLock.Lock()
 							defer e.targetsLock.Unlock()
-							if e.targets[hash] != nil {
+							if e.targets[hash] == tar {
 								e.needExplore <- tar
 							}
 						}()
